@@ -345,6 +345,10 @@ Lemma fok_alist_cons C objcls oc p a c rest :
 Proof. reflexivity. Qed.
 Lemma matches_eq sub M t l o : matches sub M (Pat t l) o = type_ok sub M t o && matches_attrs sub M l o.
 Proof. reflexivity. Qed.
+Lemma matches_attr_coll sub M q xs : matches_attr sub M (PMatch q) (VLO xs) = existsb (matches sub M q) xs.
+Proof. reflexivity. Qed.
+Lemma matches_attr_obj sub M q o' : matches_attr sub M (PMatch q) (VO o') = matches sub M q o'.
+Proof. reflexivity. Qed.
 Lemma matches_attrs_cons sub M a c rest o :
   matches_attrs sub M (ACons a c rest) o = matches_attr sub M c (attr (mw M) o a) && matches_attrs sub M rest o.
 Proof. reflexivity. Qed.
@@ -427,7 +431,6 @@ Section Main.
   Variable objcls : cls -> bool.
   Variable M : mworld.
   Variable D : list Z.
-  Hypothesis Hrefl : sub_refl C.
   Hypothesis Htrans : sub_trans C.
   Hypothesis Htyped : typed C objcls M.
   Notation W := (mw M).
@@ -586,8 +589,393 @@ Section Main.
     intros Hg Hp Hf. destruct (bind_attr e p a o Hg Hp Hf) as [Hev [Hg1 [Hx1 [Hfr1 _]]]].
     assert (Heq : eval_all [THas (PAttr p a) T] e = if isinst C M (attr W o a) T then [(PAttr p a, attr W o a) :: e] else []).
     { rewrite eval_all_single. unfold Match.eval. rewrite Hev. simpl map. apply trues_one. }
-    split; auto. rewrite Heq. split.
+    split; auto. unfold concl. rewrite Heq. split.
     - intros e' Hin. destruct (isinst C M (attr W o a) T); [|contradiction]. destruct Hin as [<-|[]]. auto.
     - destruct (isinst C M (attr W o a) T); split; congruence.
   Qed.
+
+  (* ---- keyword values that are not nested matches ---- *)
+  Lemma tr_apat_lit oc p a v :
+    tr_apat C oc p a (PLit v) = [infer (f_iter C oc a) (is_coll v) false false false (PAttr p a) v].
+  Proof. reflexivity. Qed.
+  Lemma fok_apat_lit oc p a v :
+    fok_apat C objcls oc p a (PLit v) = is_some (f_type C oc a) && (f_iter C oc a || negb (is_coll v)).
+  Proof. reflexivity. Qed.
+
+  Lemma scalar_not_coll o oc a d : inst o oc -> f_type C oc a = Some d -> f_iter C oc a = false -> is_coll (attr W o a) = false.
+  Proof.
+    intros Hi Hd Hit. pose proof (Htyped o oc a d Hi Hd) as Ht. rewrite Hit in Ht.
+    destruct (objcls d); auto. destruct Ht as [o' [-> _]]. reflexivity.
+  Qed.
+  Lemma coll_is_list o oc a d : inst o oc -> f_type C oc a = Some d -> f_iter C oc a = true ->
+    exists xs, attr W o a = VLO xs /\ forall x, In x xs -> sub C (otype M x) d = true.
+  Proof. intros Hi Hd Hit. pose proof (Htyped o oc a d Hi Hd) as Ht. rewrite Hit in Ht. exact Ht. Qed.
+
+  Lemma C_lit v : C_stmt (PLit v).
+  Proof.
+    intros oc p a e o Hg Hp Hi Hf Hok. rewrite fok_apat_lit in Hok. apply andb_true_iff in Hok. destruct Hok as [Hty Hsh].
+    destruct (f_type C oc a) as [d|] eqn:Hd; [|discriminate].
+    rewrite tr_apat_lit. change (matches_attr (sub C) M (PLit v) (attr W o a)) with (lit_ok M (attr W o a) v).
+    unfold infer, infer_kind, infer_exists.
+    destruct (f_iter C oc a) eqn:Hit; destruct (is_coll v) eqn:Hcv; simpl in Hsh; try discriminate; cbn.
+    - destruct (coll_is_list o oc a d Hi Hd Hit) as [xs [Hav _]].
+      replace (lit_ok M (attr W o a) v) with (existsb (fun x => vmem M x (elems v)) (elems (attr W o a))).
+      + apply cmp_flat; auto.
+      + unfold lit_ok. rewrite Hav. cbn [is_coll]. symmetry. apply common_coll; auto.
+    - destruct (coll_is_list o oc a d Hi Hd Hit) as [xs [Hav _]].
+      replace (lit_ok M (attr W o a) v) with (cmp M OHas (attr W o a) v).
+      + apply cmp_attr; auto.
+      + unfold lit_ok. rewrite Hav. cbn [is_coll cmp]. symmetry. apply common_scalar_lit; auto.
+    - replace (lit_ok M (attr W o a) v) with (cmp M OEq (attr W o a) v).
+      + apply cmp_attr; auto.
+      + unfold lit_ok. rewrite (scalar_not_coll o oc a d Hi Hd Hit). reflexivity.
+  Qed.
+
+  Lemma tr_apat_any oc p a v : tr_apat C oc p a (PAny v) = tr_vals C oc p a v false true.
+  Proof. reflexivity. Qed.
+  Lemma tr_apat_all oc p a v : tr_apat C oc p a (PAll v) = tr_vals C oc p a v true false.
+  Proof. reflexivity. Qed.
+  Lemma tr_vals_truthy oc p a v un ex : truthy v = true ->
+    tr_vals C oc p a v un ex = [infer (f_iter C oc a) true true un ex (PAttr p a) v].
+  Proof. intros H. unfold tr_vals, em_kind, unresolved. try rewrite H. reflexivity. Qed.
+
+  Lemma C_any v : C_stmt (PAny v).
+  Proof.
+    intros oc p a e o Hg Hp Hi Hf Hok.
+    change (fok_apat C objcls oc p a (PAny v)) with (is_some (f_type C oc a) && is_coll v && truthy v) in Hok.
+    apply andb_true_iff in Hok. destruct Hok as [Hok Htr]. apply andb_true_iff in Hok. destruct Hok as [Hty Hcv].
+    destruct (f_type C oc a) as [d|] eqn:Hd; [|discriminate].
+    rewrite tr_apat_any, (tr_vals_truthy _ _ _ _ _ _ Htr).
+    change (matches_attr (sub C) M (PAny v) (attr W o a)) with (common M (attr W o a) v).
+    unfold infer, infer_kind, infer_exists. destruct (f_iter C oc a) eqn:Hit; cbn.
+    - destruct (coll_is_list o oc a d Hi Hd Hit) as [xs [Hav _]].
+      replace (common M (attr W o a) v) with (existsb (fun x => vmem M x (elems v)) (elems (attr W o a))).
+      + apply cmp_flat; auto.
+      + rewrite Hav. symmetry. apply common_coll; auto.
+    - replace (common M (attr W o a) v) with (cmp M OIn (attr W o a) v).
+      + apply cmp_attr; auto.
+      + cbn [cmp]. symmetry. apply common_scalar_attr; auto. apply (scalar_not_coll o oc a d Hi Hd Hit).
+  Qed.
+
+  Lemma C_all v : C_stmt (PAll v).
+  Proof.
+    intros oc p a e o Hg Hp Hi Hf Hok.
+    change (fok_apat C objcls oc p a (PAll v))
+      with (is_some (f_type C oc a) && f_iter C oc a && truthy v && match v with VLO _ => true | _ => false end) in Hok.
+    apply andb_true_iff in Hok. destruct Hok as [Hok Hv]. apply andb_true_iff in Hok. destruct Hok as [Hok Htr].
+    apply andb_true_iff in Hok. destruct Hok as [Hty Hit].
+    destruct (f_type C oc a) as [d|] eqn:Hd; [|discriminate]. destruct v as [z|z|m|m]; try discriminate.
+    rewrite tr_apat_all, (tr_vals_truthy _ _ _ _ _ _ Htr).
+    change (matches_attr (sub C) M (PAll (VLO m)) (attr W o a)) with (same_set M (attr W o a) (VLO m)).
+    unfold infer, infer_kind, infer_exists. rewrite Hit. cbn.
+    destruct (coll_is_list o oc a d Hi Hd Hit) as [xs [Hav _]].
+    replace (same_set M (attr W o a) (VLO m)) with (cmp M OEq (attr W o a) (VLO m)).
+    - apply cmp_attr; auto.
+    - rewrite Hav. cbn [cmp]. symmetry. apply same_set_obj.
+  Qed.
+
+  (* ---- nested matches ---- *)
+  Lemma concl_of_members q cs e b :
+    (forall e', In e' (eval_all cs e) -> good e' /\ ext e' e /\ frame q e e') ->
+    ((exists e', In e' (eval_all cs e)) <-> b = true) -> concl q cs e b.
+  Proof. intros H1 H2. split; auto. rewrite nonempty_ex. exact H2. Qed.
+
+  Lemma nofilter_type_ok oc a t d o' : type_filter C oc a t = false -> comparable C t d = true ->
+    f_type C oc a = Some d -> inst o' d -> type_ok (sub C) M t o' = true.
+  Proof.
+    intros Htf Hc Hd Hi. destruct t as [T|]; simpl; auto.
+    unfold type_filter, type_filter_needed in Htf. rewrite Hd in Htf. simpl in Htf, Hc.
+    destruct (Nat.eqb T d) eqn:He.
+    - apply Nat.eqb_eq in He. subst. exact Hi.
+    - simpl in Htf. rewrite Htf in Hc. simpl in Hc. eapply Htrans; eauto.
+  Qed.
+  Lemma filter_has_type oc a t d : type_filter C oc a t = true -> f_type C oc a = Some d -> exists T, t = Some T.
+  Proof.
+    intros Htf Hd. unfold type_filter, type_filter_needed in Htf. rewrite Hd in Htf. destruct t; eauto. discriminate.
+  Qed.
+
+  Lemma fresh_nested e ein pa pv a' : fresh e pa -> under pa pv ->
+    (forall x, lookup e x = None -> lookup ein x <> None -> psize x <= psize pv) -> fresh ein (PAttr pv a').
+  Proof.
+    intros Hf Hu Hs x Hx. destruct (lookup ein x) eqn:Hl; auto. exfalso.
+    assert (lookup e x = None) by (apply Hf; eapply under_trans; [exact Hu|]; eapply under_trans; [apply under_attr|exact Hx]).
+    assert (psize x <= psize pv) by (apply Hs; auto; congruence).
+    apply under_size in Hx. simpl in Hx. lia.
+  Qed.
+
+  Lemma head_not_ex c cs : head_ok (c :: cs) = true -> is_ex c = false.
+  Proof. destruct c as [[|] k q v|q T]; simpl; auto. Qed.
+
+  Lemma P_case t l' : A_stmt l' -> P_stmt (Pat t l').
+  Proof.
+    intros IH oc p a e o Hg Hp Hi Hf Hok.
+    change (fok_apat C objcls oc p a (PMatch (Pat t l'))) with (fok_pat C objcls oc p a (Pat t l')) in Hok.
+    rewrite fok_pat_eq in Hok. cbv zeta in Hok.
+    apply andb_true_iff in Hok. destruct Hok as [Hok Hal]. apply andb_true_iff in Hok. destruct Hok as [Hok Hhead].
+    apply andb_true_iff in Hok. destruct Hok as [Hok Hcmp]. apply andb_true_iff in Hok. destruct Hok as [Hty Hobj].
+    destruct (f_type C oc a) as [d|] eqn:Hd; [|discriminate]. cbn [dflt] in *.
+    rewrite tr_apat_match, tr_pat_eq, Hd. cbn [dflt].
+    pose proof (Htyped o oc a d Hi Hd) as Ht.
+    destruct (bind_attr e p a o Hg Hp Hf) as [Hev [Hg1 [Hx1 [Hfr1 Hl1]]]].
+    unfold nested_filter, nested_var in *.
+    destruct (f_iter C oc a) eqn:Hit; destruct (type_filter C oc a t) eqn:Htf; unfold resolve_flatten in *; cbn [andb orb] in *.
+    - (* collection attribute, type filter *)
+      rewrite orb_true_r in *. destruct (filter_has_type oc a t d Htf Hd) as [T ->].
+      destruct Ht as [xs [Hav Hxs]].
+      set (pf := PFlat (PAttr p a)) in *. set (cs := tr_alist C d pf l') in *.
+      assert (Hmem : forall e', In e' (eval_all ([THas pf T] ++ cs) e) <->
+                exists ox, In ox xs /\ sub C (otype M ox) T = true /\
+                  In e' (eval_all cs ((pf, VO ox) :: (PAttr p a, attr W o a) :: e))).
+      { intros e'. rewrite eval_all_app, eval_all_single, in_flat_map. unfold Match.eval.
+        unfold pf. rewrite (eval_flat_from e p a o Hp Hf), map_map. cbn [fst snd]. rewrite Hav. cbn [elems].
+        rewrite map_map. split.
+        - intros [e2 [H1 H2]]. apply (trues_map_in (fun ox => (PFlat (PAttr p a), VO ox) :: (PAttr p a, VLO xs) :: e) (fun ox => isinst C M (VO ox) T)) in H1.
+          destruct H1 as [ox [? [? ->]]]. eauto.
+        - intros [ox [? [? ?]]]. eexists. split; [|eassumption].
+          apply (trues_map_in (fun ox => (PFlat (PAttr p a), VO ox) :: (PAttr p a, VLO xs) :: e) (fun ox => isinst C M (VO ox) T)). eauto. }
+      assert (Hnest : forall ox, In ox xs ->
+                concl (PAttr p a) cs ((pf, VO ox) :: (PAttr p a, attr W o a) :: e) (matches_attrs (sub C) M l' ox) /\
+                (forall e', In e' (eval_all cs ((pf, VO ox) :: (PAttr p a, attr W o a) :: e)) -> ext e' e /\ frame (PAttr p a) e e')).
+      { intros ox Hox. assert (Hin : In (VO ox) (elems (attr W o a))) by (rewrite Hav; simpl; apply in_map; auto).
+        destruct (bind_flat e p a o (VO ox) Hg Hp Hf Hin) as [Hg2 [Hx2 [Hfr2 Hl2]]].
+        apply (nested_run l' IH d p a pf e); auto.
+        - apply under_flat.
+        - red. auto.
+        - intros a'. apply (fresh_nested e _ (PAttr p a)); auto; [apply under_flat|].
+          intros x H1 H2. destruct (path_eq_dec pf x) as [<-|N1]; [unfold pf; simpl; lia|].
+          destruct (path_eq_dec (PAttr p a) x) as [<-|N2]; [unfold pf; simpl; lia|].
+          rewrite !lookup_cons_ne in H2 by auto. congruence. }
+      apply concl_of_members.
+      + intros e' Hin. apply Hmem in Hin. destruct Hin as [ox [Hox [_ Hin]]].
+        destruct (Hnest ox Hox) as [[Hc1 _] Hc2]. destruct (Hc1 e' Hin) as [? _]. destruct (Hc2 e' Hin). auto.
+      + rewrite Hav. rewrite matches_attr_coll, existsb_exists. split.
+        * intros [e' Hin]. apply Hmem in Hin. destruct Hin as [ox [Hox [Hty' Hin]]]. exists ox. split; auto.
+          rewrite matches_eq. cbn [type_ok]. rewrite Hty'. simpl.
+          destruct (Hnest ox Hox) as [[_ Hc] _]. apply Hc. apply nonempty_ex. eauto.
+        * intros [ox [Hox Hm]]. rewrite matches_eq in Hm. apply andb_true_iff in Hm. destruct Hm as [Hty' Hm].
+          destruct (Hnest ox Hox) as [[_ Hc] _]. apply Hc in Hm. apply nonempty_ex in Hm. destruct Hm as [e' Hin].
+          exists e'. apply Hmem. eauto.
+    - (* collection attribute, no type filter: the nested conditions start with a non-existential one *)
+      rewrite orb_false_r in *. simpl in Hhead.
+      destruct l' as [|a0 c0 rest0] eqn:Hl'; [discriminate|]. rewrite <- Hl' in *. cbn [is_anil negb] in *.
+      replace (negb (is_anil l')) with true in * by (rewrite Hl'; reflexivity).
+      destruct Ht as [xs [Hav Hxs]].
+      set (pf := PFlat (PAttr p a)) in *. set (cs := tr_alist C d pf l') in *. simpl app.
+      destruct cs as [|c cs'] eqn:Hcs; [discriminate|]. rewrite <- Hcs in *.
+      assert (Hmem : forall e', In e' (eval_all cs e) <->
+                exists ox, In ox xs /\ In e' (eval_all cs ((pf, VO ox) :: (PAttr p a, attr W o a) :: e))).
+      { intros e'. rewrite Hcs. rewrite (eval_all_factor C M D c cs' pf e).
+        - rewrite <- Hcs. unfold pf. rewrite (eval_flat_from e p a o Hp Hf), flat_map_map. cbn [fst]. rewrite Hav. cbn [elems].
+          rewrite flat_map_map, in_flat_map. split; intros [ox ?]; exists ox; auto.
+        - apply (head_not_ex c cs'). rewrite <- Hcs. exact Hhead.
+        - apply (proj1 (proj2 (tr_under C)) l' d pf c). fold cs. rewrite Hcs. simpl. auto.
+        - intros x Hx. apply Hf. eapply under_trans; [apply under_flat|exact Hx]. }
+      assert (Hnest : forall ox, In ox xs ->
+                concl (PAttr p a) cs ((pf, VO ox) :: (PAttr p a, attr W o a) :: e) (matches_attrs (sub C) M l' ox) /\
+                (forall e', In e' (eval_all cs ((pf, VO ox) :: (PAttr p a, attr W o a) :: e)) -> ext e' e /\ frame (PAttr p a) e e')).
+      { intros ox Hox. assert (Hin : In (VO ox) (elems (attr W o a))) by (rewrite Hav; simpl; apply in_map; auto).
+        destruct (bind_flat e p a o (VO ox) Hg Hp Hf Hin) as [Hg2 [Hx2 [Hfr2 Hl2]]].
+        apply (nested_run l' IH d p a pf e); auto.
+        - apply under_flat.
+        - red. auto.
+        - intros a'. apply (fresh_nested e _ (PAttr p a)); auto; [apply under_flat|].
+          intros x H1 H2. destruct (path_eq_dec pf x) as [<-|N1]; [unfold pf; simpl; lia|].
+          destruct (path_eq_dec (PAttr p a) x) as [<-|N2]; [unfold pf; simpl; lia|].
+          rewrite !lookup_cons_ne in H2 by auto. congruence. }
+      apply concl_of_members.
+      + intros e' Hin. apply Hmem in Hin. destruct Hin as [ox [Hox Hin]].
+        destruct (Hnest ox Hox) as [[Hc1 _] Hc2]. destruct (Hc1 e' Hin) as [? _]. destruct (Hc2 e' Hin). auto.
+      + rewrite Hav. rewrite matches_attr_coll, existsb_exists. split.
+        * intros [e' Hin]. apply Hmem in Hin. destruct Hin as [ox [Hox Hin]]. exists ox. split; auto.
+          rewrite matches_eq. rewrite (nofilter_type_ok oc a t d ox Htf Hcmp Hd) by (apply Hxs; auto). simpl.
+          destruct (Hnest ox Hox) as [[_ Hc] _]. apply Hc. apply nonempty_ex. eauto.
+        * intros [ox [Hox Hm]]. rewrite matches_eq in Hm. apply andb_true_iff in Hm. destruct Hm as [_ Hm].
+          destruct (Hnest ox Hox) as [[_ Hc] _]. apply Hc in Hm. apply nonempty_ex in Hm. destruct Hm as [e' Hin].
+          exists e'. apply Hmem. eauto.
+    - (* one-to-one attribute, type filter *)
+      destruct (filter_has_type oc a t d Htf Hd) as [T ->]. rewrite Hobj in Ht. destruct Ht as [o' [Hav Ho']].
+      set (cs := tr_alist C d (PAttr p a) l') in *.
+      destruct (has_attr T e p a o Hg Hp Hf) as [_ Heq].
+      assert (Hnest : concl (PAttr p a) cs ((PAttr p a, attr W o a) :: e) (matches_attrs (sub C) M l' o') /\
+                (forall e', In e' (eval_all cs ((PAttr p a, attr W o a) :: e)) -> ext e' e /\ frame (PAttr p a) e e')).
+      { apply (nested_run l' IH d p a (PAttr p a) e); auto.
+        - apply under_refl.
+        - rewrite Hl1. rewrite Hav. reflexivity.
+        - intros a'. apply (fresh_nested e _ (PAttr p a)); auto; [apply under_refl|].
+          intros x H1 H2. destruct (path_eq_dec (PAttr p a) x) as [<-|N2]; [lia|].
+          rewrite lookup_cons_ne in H2 by auto. congruence. }
+      rewrite Hav. rewrite matches_attr_obj, matches_eq. cbn [type_ok].
+      unfold concl. rewrite eval_all_app, Heq. rewrite Hav. cbn [isinst].
+      destruct (sub C (otype M o') T); simpl.
+      + rewrite app_nil_r. rewrite Hav in Hnest. destruct Hnest as [[Hc1 Hc2] Hc3]. split; auto.
+        intros e' Hin. destruct (Hc1 e' Hin) as [? _]. destruct (Hc3 e' Hin). auto.
+      + split; [intros e' []|]. split; [congruence|discriminate].
+    - (* one-to-one attribute, no type filter *)
+      rewrite Hobj in Ht. destruct Ht as [o' [Hav Ho']]. simpl app.
+      set (cs := tr_alist C d (PAttr p a) l') in *.
+      assert (Hnest : concl (PAttr p a) cs ((PAttr p a, attr W o a) :: e) (matches_attrs (sub C) M l' o') /\
+                (forall e', In e' (eval_all cs ((PAttr p a, attr W o a) :: e)) -> ext e' e /\ frame (PAttr p a) e e')).
+      { apply (nested_run l' IH d p a (PAttr p a) e); auto.
+        - apply under_refl.
+        - rewrite Hl1. rewrite Hav. reflexivity.
+        - intros a'. apply (fresh_nested e _ (PAttr p a)); auto; [apply under_refl|].
+          intros x H1 H2. destruct (path_eq_dec (PAttr p a) x) as [<-|N2]; [lia|].
+          rewrite lookup_cons_ne in H2 by auto. congruence. }
+      rewrite Hav. rewrite matches_attr_obj, matches_eq.
+      rewrite (nofilter_type_ok oc a t d o' Htf Hcmp Hd Ho'). simpl.
+      destruct Hnest as [[Hc1 Hc2] Hc3].
+      destruct cs as [|c cs'] eqn:Hcs.
+      + split.
+        * intros e' [<-|[]]. split; auto. split; [apply ext_refl|]. intros x H1 H2. congruence.
+        * split; [intros _|intros _; simpl; congruence]. apply Hc2. simpl. congruence.
+      + assert (Heq : eval_all (c :: cs') e = eval_all (c :: cs') ((PAttr p a, attr W o a) :: e)).
+        { apply (eval_all_factor1 C M D c cs' (PAttr p a) e _ (attr W o a)); auto.
+          apply (proj1 (proj2 (tr_under C)) l' d (PAttr p a) c). fold cs. rewrite Hcs. simpl. auto. }
+        unfold concl. rewrite Heq. split; auto.
+        intros e' Hin. destruct (Hc1 e' Hin) as [? _]. destruct (Hc3 e' Hin). auto.
+  Qed.
+
+  (* ---- keyword lists ---- *)
+  Lemma A_nil : A_stmt ANil.
+  Proof.
+    intros oc p e o Hg Hp Hi Hf Hok. simpl. split.
+    - intros e' [<-|[]]. split; auto. split; [apply ext_refl|]. intros x H1 H2. congruence.
+    - split; auto. intros _. discriminate.
+  Qed.
+
+  Lemma A_cons a c rest : C_stmt c -> A_stmt rest -> A_stmt (ACons a c rest).
+  Proof.
+    intros IHc IHr oc p e o Hg Hp Hi Hf Hok. rewrite fok_alist_cons in Hok.
+    apply andb_true_iff in Hok. destruct Hok as [Hok Hokr]. apply andb_true_iff in Hok. destruct Hok as [Hnd Hokc].
+    assert (Hnin : ~ In a (names rest)).
+    { intros Hin. apply negb_true_iff in Hnd. unfold nmemb in Hnd.
+      assert (existsb (Nat.eqb a) (names rest) = true) by (apply existsb_exists; exists a; split; auto; apply Nat.eqb_refl).
+      congruence. }
+    destruct (IHc oc p a e o Hg Hp Hi (Hf a (or_introl eq_refl)) Hokc) as [Hc1 Hc2].
+    rewrite tr_alist_cons, matches_attrs_cons.
+    assert (Hrest : forall e1, In e1 (eval_all (tr_apat C oc p a c) e) ->
+              (forall e', In e' (eval_all (tr_alist C oc p rest) e1) ->
+                 good e' /\ ext e' e1 /\
+                 (forall x, lookup e1 x = None -> lookup e' x <> None -> exists a', In a' (names rest) /\ under (PAttr p a') x))
+              /\ (eval_all (tr_alist C oc p rest) e1 <> [] <-> matches_attrs (sub C) M rest o = true)).
+    { intros e1 Hin1. destruct (Hc1 e1 Hin1) as [Hg1 [Hx1 Hfr1]].
+      apply IHr; auto.
+      intros a' Ha' x Hx. destruct (lookup e1 x) eqn:Hl; auto. exfalso.
+      assert (Hn : lookup e x = None) by (apply (Hf a'); simpl; auto).
+      assert (Hu : under (PAttr p a) x) by (apply Hfr1; auto; congruence).
+      assert (a = a') by (eapply under_attr_inj; eauto). subst. contradiction. }
+    split.
+    - intros e' Hin. rewrite eval_all_app, in_flat_map in Hin. destruct Hin as [e1 [Hin1 Hin2]].
+      destruct (Hc1 e1 Hin1) as [Hg1 [Hx1 Hfr1]]. destruct (Hrest e1 Hin1) as [Hr1 _].
+      destruct (Hr1 e' Hin2) as [Hg' [Hx' Hn']]. split; auto. split; [eapply ext_trans; eauto|].
+      intros x Hnone Hsome. destruct (lookup e1 x) eqn:Hl.
+      + exists a. split; [simpl; auto|]. apply Hfr1; auto. congruence.
+      + destruct (Hn' x Hl Hsome) as [a' [Ha' Hu]]. exists a'. split; [simpl; auto|auto].
+    - rewrite eval_all_app, andb_true_iff, <- Hc2. rewrite !nonempty_ex. split.
+      + intros [e' Hin]. apply in_flat_map in Hin. destruct Hin as [e1 [Hin1 Hin2]]. split; [eauto|].
+        destruct (Hrest e1 Hin1) as [_ Hr2]. apply Hr2. apply nonempty_ex. eauto.
+      + intros [[e1 Hin1] Hm]. destruct (Hrest e1 Hin1) as [_ Hr2]. apply Hr2 in Hm. apply nonempty_ex in Hm.
+        destruct Hm as [e' Hin2]. exists e'. apply in_flat_map. eauto.
+  Qed.
+
+  Theorem all_stmts : (forall q, P_stmt q) /\ (forall l, A_stmt l) /\ (forall c, C_stmt c).
+  Proof.
+    apply pat_mutind.
+    - intros t l IH. apply P_case; auto.
+    - apply A_nil.
+    - intros a c IHc rest IHr. apply A_cons; auto.
+    - apply C_lit.
+    - intros q IH. exact IH.
+    - apply C_any.
+    - apply C_all.
+  Qed.
+
+  (* the conditions built from the keywords of a pattern are satisfiable from the binding root := o exactly when o
+     satisfies the keywords *)
+  Theorem match_sat T l o : fok_alist C objcls T PRoot l = true -> In o D -> inst o T ->
+    (eval_all (tr_alist C T PRoot l) [(PRoot, VO o)] <> [] <-> matches_attrs (sub C) M l o = true)
+    /\ (forall e', In e' (eval_all (tr_alist C T PRoot l) [(PRoot, VO o)]) -> lookup e' PRoot = Some (VO o)).
+  Proof.
+    intros Hok Hin Hi. destruct all_stmts as [_ [HA _]].
+    assert (Hg : good [(PRoot, VO o)]).
+    { apply good_cons; [apply good_nil|reflexivity|]. simpl. eauto. }
+    destruct (HA l T PRoot [(PRoot, VO o)] o Hg (lookup_cons_eq _ _ _) Hi) as [H1 H2]; auto.
+    - intros a _ x Hx. rewrite lookup_cons_ne; auto. intros <-. apply under_size in Hx. simpl in Hx. lia.
+    - split; auto. intros e' He. destruct (H1 e' He) as [_ [Hx _]]. apply Hx. apply lookup_cons_eq.
+  Qed.
+
+  (* ---- the root variable: one independent evaluation per domain element ---- *)
+  Lemma scan_roots (R : Z -> list res) : forall Ds, NoDup Ds ->
+    (forall o r, In r (R o) -> lookup (fst r) PRoot = Some (VO o)) ->
+    forall seen, (forall o, In o Ds -> existsb (oval_eqb (Some (VO o))) seen = false) ->
+    trues (exists_scan seen (flat_map R Ds)) = flat_map (fun o => trues (exists_scan [] (R o))) Ds.
+  Proof.
+    induction Ds as [|o Ds IH]; intros Hnd HR seen Hseen; simpl; auto.
+    inversion Hnd as [|? ? Hnin Hnd']; subst.
+    destruct (scan_chunk (Some (VO o)) (R o) seen (flat_map R Ds)) as [seen' [Heq Hs']].
+    - intros r Hr. apply (HR o r Hr).
+    - apply Hseen. simpl; auto.
+    - eapply eq_trans; [exact Heq|]. f_equal. apply IH; auto.
+      intros o' Ho'. destruct (existsb (oval_eqb (Some (VO o'))) seen') eqn:He; auto. exfalso.
+      destruct (Hs' _ He) as [Hj|Hj].
+      + injection Hj as ->. contradiction.
+      + rewrite Hseen in Hj by (simpl; auto). discriminate.
+  Qed.
+
+  Definition root_env (o : Z) : env := [(PRoot, VO o)].
+  Lemma eval_root_nil : eval_path PRoot [] = map (fun o => (root_env o, VO o)) D.
+  Proof. reflexivity. Qed.
+
+  Lemma root_split c cs : NoDup D ->
+    eval_all (c :: cs) [] = flat_map (fun o => eval_all (c :: cs) (root_env o)) D.
+  Proof.
+    intros Hnd. simpl.
+    assert (Htr : trues (eval c []) = flat_map (fun o => trues (eval c (root_env o))) D).
+    { destruct (is_ex c) eqn:Hex.
+      - destruct c as [[|] k pc v|]; try discriminate. unfold Match.eval.
+        rewrite (path_factor M D PRoot pc [] (under_root pc)) by (intros; reflexivity).
+        rewrite eval_root_nil, flat_map_map, map_flat_map. cbn [fst].
+        apply (scan_roots (fun o => map (fun r : env * val => (fst r, negb (cmp M k (snd r) v))) (eval_path pc (root_env o)))); auto.
+        intros o r Hr. apply in_map_iff in Hr. destruct Hr as [[e1 v1] [<- Hin]]. cbn [fst].
+        destruct (eval_path_props M D _ _ _ _ Hin) as [_ [Hx _]]. apply Hx. apply lookup_cons_eq.
+      - rewrite (eval_factor C M D c PRoot []); auto; [|apply under_root].
+        rewrite eval_root_nil, flat_map_map, trues_flat_map. reflexivity. }
+    rewrite Htr, flat_map_flat_map. reflexivity.
+  Qed.
+
+  Lemma select_root_bound e o : lookup e PRoot = Some (VO o) -> select_root M D e = [o].
+  Proof. intros H. unfold select_root. rewrite (eval_path_bound M D _ _ _ H). reflexivity. Qed.
+  Lemma select_root_nil : select_root M D [] = D.
+  Proof.
+    unfold select_root. rewrite eval_root_nil, flat_map_map. cbn [snd]. apply flat_map_single.
+  Qed.
+
+  Theorem run_conds_exact T l : NoDup D -> fok_alist C objcls T PRoot l = true -> (forall o, In o D -> inst o T) ->
+    forall o, In o (run_conds C M D (tr_alist C T PRoot l)) <-> In o D /\ matches_attrs (sub C) M l o = true.
+  Proof.
+    intros Hnd Hok HD o. unfold run_conds. rewrite true_envs_seq.
+    destruct (tr_alist C T PRoot l) as [|c cs] eqn:Hcs.
+    - simpl. rewrite app_nil_r, select_root_nil. split; [|tauto]. intros Hin. split; auto.
+      destruct (match_sat T l o Hok Hin (HD o Hin)) as [Hm _]. rewrite Hcs in Hm. apply Hm. simpl. discriminate.
+    - rewrite (root_split c cs Hnd), <- Hcs, in_flat_map. split.
+      + intros [e' [Hin Hsel]]. apply in_flat_map in Hin. destruct Hin as [o1 [Ho1 Hin]].
+        destruct (match_sat T l o1 Hok Ho1 (HD o1 Ho1)) as [Hm Hroot].
+        rewrite (select_root_bound e' o1 (Hroot e' Hin)) in Hsel. destruct Hsel as [<-|[]]. split; auto.
+        apply Hm. apply nonempty_ex. eauto.
+      + intros [Hin Hmt]. destruct (match_sat T l o Hok Hin (HD o Hin)) as [Hm Hroot].
+        apply Hm in Hmt. apply nonempty_ex in Hmt. destruct Hmt as [e' He'].
+        exists e'. split; [apply in_flat_map; eauto|]. rewrite (select_root_bound e' o (Hroot e' He')). simpl; auto.
+  Qed.
 End Main.
+
+(* C11: the answer of the pattern query is the set of domain elements of type T that the Spec denotes *)
+Theorem match_run_exact C objcls M T l dom :
+  sub_trans C -> typed C objcls M -> NoDup dom -> F11 C objcls T l = true ->
+  forall o, In o (run C M T l dom) <-> In o (spec_run (sub C) M T l dom).
+Proof.
+  intros Ht Hty Hnd HF o. unfold run, spec_run.
+  rewrite (run_conds_exact C objcls M (filter (fun o0 => sub C (otype M o0) T) dom) Ht Hty T l); auto.
+  - rewrite !filter_In, matches_eq. cbn [type_ok]. rewrite andb_true_iff. tauto.
+  - apply NoDup_filter. exact Hnd.
+  - intros o0 Ho0. apply filter_In in Ho0. apply Ho0.
+Qed.
